@@ -122,31 +122,36 @@ class gre (packet_base):
         self.recursion = (flags & 0x700) >> 8
 
         offset = None
-        if csum_present or route_present:
-            self.csum,self.route_offset = struct.unpack("!HH", raw[o:o+4])
-            o += 4
-            if self.verify_csum:
-                if checksum(raw) != 0:
-                    self.msg('warning GRE checksum did not match')
-                    return
-
-        if key_present:
-            self.key = struct.unpack("!I", raw[o:o+4])[0]
-            o += 4
-
-        if seq_present:
-            self.seq = struct.unpack("!I", raw[o:o+4])[0]
-            o += 4
-
-        if route_present:
-            self.routing = []
-            while True:
-                af,so,sl = struct.unpack("!HBB", raw[o:o+4])
+        try:
+            if csum_present or route_present:
+                self.csum,self.route_offset = struct.unpack("!HH", raw[o:o+4])
                 o += 4
-                sd = raw[o:o+sl]
-                o += sl
-                self.routing.append((af,so,sl,sd))
-                if sl == 0: break
+                if self.verify_csum:
+                    if checksum(raw) != 0:
+                        self.msg('warning GRE checksum did not match')
+                        return
+
+            if key_present:
+                self.key = struct.unpack("!I", raw[o:o+4])[0]
+                o += 4
+
+            if seq_present:
+                self.seq = struct.unpack("!I", raw[o:o+4])[0]
+                o += 4
+
+            if route_present:
+                self.routing = []
+                while True:
+                    af,so,sl = struct.unpack("!HBB", raw[o:o+4])
+                    o += 4
+                    sd = raw[o:o+sl]
+                    o += sl
+                    self.routing.append((af,so,sl,sd))
+                    if sl == 0: break
+        except struct.error:
+            self.msg('warning GRE packet data too short to parse '
+                     + 'optional fields')
+            return
 
         self.parsed = True
 
